@@ -19,6 +19,7 @@ mod p07;
 mod p11;
 mod p12;
 mod p13;
+mod p14;
 mod p16;
 mod p17;
 mod p18;
@@ -166,6 +167,17 @@ fn main() {
                 let code = dispatch!(id.as_str(), do_isolate, &ctx, index, family);
                 std::process::exit(code);
             }
+        }
+        "c14gen" => {
+            let tier = match arg_val(&args, "--tier").as_deref() {
+                Some("thorough") => Tier::Thorough,
+                _ => Tier::Quick,
+            };
+            let seed = arg_val(&args, "--seed").and_then(|s| s.parse().ok()).unwrap_or(1);
+            let count = arg_val(&args, "--count").and_then(|s| s.parse().ok()).unwrap_or(100);
+            let out = arg_val(&args, "--out").unwrap_or_else(|| "/verif/work/c14_cases.jsonl".into());
+            let meta = p14::generate(seed, tier, count, &out).expect("generate");
+            println!("{meta}");
         }
         "replay" => {
             let path = args[2].clone();
